@@ -314,27 +314,147 @@ Proof.
     match goal with |- (if ?c then _ else _) = true => destruct c; [|reflexivity] end. apply pair_eqb_same.
 Qed.
 
+(* ---- field preservation of updatetflag / updatemeta ------------------------------------------------------------- *)
+Lemma updatetflag_fields h g : updatetflag h = Ok g ->
+  nl g = nl h /\ nvgl g = nvgl h /\ sdate g = sdate h /\ stime g = stime h /\ dvars g = dvars h /\ varlist g = varlist h.
+Proof.
+  unfold updatetflag. intros H.
+  match type of H with (if ?c then _ else _) = _ => destruct c end.
+  - match type of H with (if ?c then _ else _) = _ => destruct c; [discriminate|] end. inv H. simpl. repeat split; reflexivity.
+  - inv H. repeat split; reflexivity.
+Qed.
+Lemma updatemeta_fields f g : updatemeta f = Ok g ->
+  nl g = nl f /\ nvgl g = nvgl f /\ sdate g = sdate f /\ stime g = stime f /\ dvars g = dvars f.
+Proof.
+  unfold updatemeta. intros H. apply updatetflag_fields in H as (H1 & H2 & H3 & H4 & H5 & _). simpl in *. repeat split; assumption.
+Qed.
+Lemma copy_fields f g : impl_copy f = Ok g -> sdate g = sdate f /\ stime g = stime f /\ dvars g = dvars f.
+Proof.
+  unfold impl_copy. intros H. apply updatetflag_fields in H as (_ & _ & H3 & H4 & H5 & _). simpl in *. repeat split; assumption.
+Qed.
+
+Lemma filter_nonempty {A} (p : A -> bool) x l : In x l -> p x = true -> filter p l <> [].
+Proof.
+  intros Hin Hp E. assert (In x (filter p l)) by (apply filter_In; split; assumption). rewrite E in H. contradiction.
+Qed.
+
+(* ---- eval ------------------------------------------------------------------------------------------------------------ *)
+(* adding the freshly assigned variable n to a coherent file g (whose standard variables become vs', n among them) *)
+Lemma add_new_coherent g vs' n r :
+  coherentb g = true -> In n vs' -> updatemeta (add2varlist (set_dvars g vs') [n]) = Ok r -> coherentb r = true.
+Proof.
+  intros C Hn H. apply coherent_elim in C as [R T].
+  destruct (tflag_part_elim _ T) as (s1 & r0 & t & ET & ES & ER).
+  pose proof (coh_rest_elim _ R) as (H1 & H2 & H3 & H4 & H5 & H6 & H7 & H8 & H9).
+  set (h := add2varlist (set_dvars g vs') [n]) in *.
+  assert (VN : In n (varlist h)).
+  { unfold h, add2varlist; simpl.
+    match goal with |- context [if ?c then _ else _] => destruct c eqn:E end.
+    - apply in_or_app; right. left; reflexivity.
+    - apply in_or_app; left. apply negb_false_iff in E. apply (proj1 (memb_In _ _)) in E. unfold listed_existing in E.
+      apply (proj1 (filter_In _ _ _)) in E. destruct E as [E _]. exact E. }
+  eapply updatemeta_coherent; [exact H| | |].
+  - unfold newvl. destruct (varlist h) as [|v0 vt] eqn:EV; [contradiction|]. rewrite <- EV in VN.
+    unfold listed_existing. apply (filter_nonempty _ n); [exact VN|]. apply memb_In. exact Hn.
+  - exact H8.
+  - unfold tflag_keep_ok. simpl. rewrite ET, ER.
+    match goal with |- (if ?c then _ else _) = true => destruct c; [|reflexivity] end. apply pair_eqb_same.
+Qed.
+
+Lemma eval_coherent f n a ca g :
+  coherentb f = true -> iop_region f (IEval n a ca) = 0%nat -> impl_eval f n a ca = Ok g -> coherentb g = true.
+Proof.
+  intros C Rg H. unfold impl_eval in H.
+  match type of H with (if ?c then _ else _) = _ => destruct c; [discriminate|] end.
+  destruct ca.
+  - bindinv H. eapply add_new_coherent; cycle 2; [exact H|eapply copy_coherent; eauto|].
+    apply in_or_app; right; left; reflexivity.
+  - bindinv H. eapply add_new_coherent; cycle 2; [exact H| |left; reflexivity].
+    eapply subset_coherent; [exact C| |exact E].
+    simpl in Rg. destruct (memb a (listed_existing f)) eqn:M; [|discriminate].
+    apply (proj1 (memb_In _ _)) in M. unfold iop_region.
+    match goal with |- match ?x with _ => _ end = _ => destruct x eqn:EF end; [|reflexivity].
+    exfalso. apply (filter_nonempty (fun k => memb k [a]) a _ M); [|exact EF]. apply memb_In. left; reflexivity.
+Qed.
+
+(* ---- mask ------------------------------------------------------------------------------------------------------------ *)
+Lemma mask_coherent f g : coherentb f = true -> impl_mask f = Ok g -> coherentb g = true.
+Proof.
+  intros C H. pose proof (coherent_elim _ C) as [R T]. unfold impl_mask in H.
+  destruct (tflag_part_elim _ T) as (s1 & r0 & t & ET & ES & ER). rewrite ET in H.
+  bindinv H. destruct (negb (Nat.eqb s1 (vardim f))); [discriminate|].
+  pose proof (copy_coherent _ _ C E) as Ca. destruct (copy_fields _ _ E) as (SD & ST & DV).
+  apply coherent_elim in Ca as [Ra Ta].
+  destruct (tflag_part_elim _ Ta) as (sa & ra & ta & ETa & ESa & ERa).
+  pose proof (coh_rest_elim _ Ra) as (A1 & A2 & A3 & A4 & A5 & A6 & A7 & A8 & A9).
+  pose proof (varlist_nonempty _ Ra) as NEa. pose proof (listed_all _ Ra) as La.
+  set (h := set_rows (add2varlist a (dvars f)) (r0 :: t)) in *.
+  assert (TH : tflag h = Some (sa, r0 :: t)) by (unfold h, set_rows; simpl; rewrite ETa; simpl; rewrite ?ETa; reflexivity).
+  assert (VH : varlist h = varlist a ++ filter (fun k => negb (memb k (listed_existing a))) (dvars f)
+               /\ dvars h = dvars a /\ nvgl h = nvgl a /\ nl h = nl a /\ sdate h = sdate a /\ stime h = stime a).
+  { unfold h, set_rows; simpl. rewrite ETa. simpl. repeat split; reflexivity. }
+  destruct VH as (VH & DH & NGH & NLH & SDH & STH).
+  eapply updatemeta_coherent; [exact H| | |].
+  - unfold newvl. destruct (varlist a) as [|v0 vt] eqn:EV; [congruence|].
+    rewrite VH. simpl. unfold listed_existing. rewrite DH, VH. simpl.
+    assert (M0 : memb v0 (dvars a) = true).
+    { simpl in A4. apply andb_true_iff in A4 as [A4 _]. exact A4. }
+    rewrite M0. discriminate.
+  - rewrite NGH, NLH. exact A8.
+  - unfold tflag_keep_ok. rewrite TH, SDH, STH, SD, ST, ER.
+    match goal with |- (if ?c then _ else _) = true => destruct c; [|reflexivity] end. apply pair_eqb_same.
+Qed.
+
+(* ---- interpSigma ----------------------------------------------------------------------------------------------------- *)
+Lemma interp_coherent f m g : coherentb f = true -> impl_interp f m = Ok g -> coherentb g = true.
+Proof.
+  intros C H. pose proof (coherent_elim _ C) as [R T]. unfold impl_interp in H.
+  destruct (tflag_part_elim _ T) as (s1 & r0 & t & ET & ES & ER). rewrite ET in H.
+  match type of H with (if ?c then _ else _) = _ => destruct c; [discriminate|] end.
+  bindinv H.
+  pose proof (newvl_coherent _ R) as NV. pose proof (varlist_nonempty _ R) as NE.
+  (* the first updatemeta already gives a coherent file with m layers and m+1 levels *)
+  assert (Ca : coherentb a = true).
+  { eapply updatemeta_coherent; [exact E| | |].
+    - unfold newvl, listed_existing; simpl. fold (listed_existing f). fold (newvl f). rewrite NV. exact NE.
+    - reflexivity.
+    - unfold tflag_keep_ok; simpl. rewrite ET, ER.
+      match goal with |- (if ?c then _ else _) = true => destruct c; [|reflexivity] end. apply pair_eqb_same. }
+  destruct (updatemeta_fields _ _ E) as (NLa & NGa & _). simpl in NLa, NGa.
+  apply coherent_elim in Ca as [Ra Ta].
+  destruct (tflag_part_elim _ Ta) as (sa & ra & ta & ETa & ESa & ERa).
+  pose proof (newvl_coherent _ Ra) as NVa. pose proof (varlist_nonempty _ Ra) as NEa.
+  eapply updatemeta_coherent; [exact H| | |].
+  - unfold newvl, listed_existing; simpl. fold (listed_existing a). fold (newvl a). rewrite NVa. exact NEa.
+  - simpl. rewrite NLa. reflexivity.
+  - unfold tflag_keep_ok; simpl. rewrite ETa, ERa.
+    match goal with |- (if ?c then _ else _) = true => destruct c; [|reflexivity] end. apply pair_eqb_same.
+Qed.
+
 (* ---- one step / sequences ------------------------------------------------------------------------------------------ *)
 Theorem istep_coherent f o g :
-  coherentb f = true -> proved_op o = true -> iop_region f o = 0%nat -> istep f o = Ok g -> coherentb g = true.
+  coherentb f = true -> iop_region f o = 0%nat -> istep f o = Ok g -> coherentb g = true.
 Proof.
-  intros C P Rg H. destruct o; try discriminate P; simpl in H.
+  intros C Rg H. destruct o; simpl in H.
   - eapply copy_coherent; eauto.
   - eapply subset_coherent; eauto.
   - eapply rename_coherent; eauto.
   - eapply slice_coherent; eauto.
   - eapply apply_coherent; eauto.
+  - eapply eval_coherent; eauto.
+  - eapply mask_coherent; eauto.
   - eapply stack_coherent; eauto.
+  - eapply interp_coherent; eauto.
 Qed.
 
 Theorem irun_coherent ops : forall f g,
-  coherentb f = true -> forallb proved_op ops = true -> irun_region f ops = 0%nat -> irun f ops = Ok g -> coherentb g = true.
+  coherentb f = true -> irun_region f ops = 0%nat -> irun f ops = Ok g -> coherentb g = true.
 Proof.
-  induction ops as [|o t IH]; intros f g C P Rg H.
+  induction ops as [|o t IH]; intros f g C Rg H.
   - inv H. exact C.
-  - simpl in H. bindinv H. simpl in P. apply andb_true_iff in P as [P1 P2].
+  - simpl in H. bindinv H.
     simpl in Rg. destruct (iop_region f o) eqn:ER; [|discriminate]. rewrite E in Rg.
-    eapply IH; [|exact P2|exact Rg|exact H]. eapply istep_coherent; eauto.
+    eapply IH; [|exact Rg|exact H]. eapply istep_coherent; eauto.
 Qed.
 
 (* updatemeta() always leaves TSTEP marked unlimited (the IOAPI clause of C01) *)
@@ -344,4 +464,13 @@ Proof.
   match type of H with (if ?c then _ else _) = _ => destruct c end.
   - match type of H with (if ?c then _ else _) = _ => destruct c; [discriminate|] end. inv H. reflexivity.
   - inv H. reflexivity.
+Qed.
+
+(* Coherent implies the structural keys of audit_meta *)
+Theorem audit_implied f : coherentb f = true -> audit_structb f = true.
+Proof.
+  intros C. apply coherent_elim in C as [R T].
+  destruct (tflag_part_elim _ T) as (s1 & r0 & t & ET & ES & ER).
+  pose proof (coh_rest_elim _ R) as (H1 & H2 & H3 & H4 & H5 & H6 & H7 & H8 & H9).
+  unfold audit_structb. rewrite H5, H6, H7, H4, ET, ER, H2, <- H1, !Nat.eqb_refl. simpl. apply pair_eqb_same.
 Qed.
